@@ -1,0 +1,57 @@
+package pugjs
+
+import (
+	"testing"
+
+	"github.com/stretchr/testify/assert"
+)
+
+type convertDataPage struct {
+	Title string
+	Tags  Object
+}
+
+// page data may hold values which already are pugjs objects (the caller converted them, e.g. to cache them):
+// a render works on copies of them
+func TestConvertDataDetachesObjects(t *testing.T) {
+	tags := Convert([]string{"b", "a"}).(*Array)
+	attrs := Convert(map[string]interface{}{"a": 1}).(*Map)
+	page := Convert(convertDataPage{Title: "t", Tags: tags}).(*Map)
+	list := []Object{tags, attrs}
+	data := map[string]interface{}{"tags": tags, "attrs": attrs, "page": page, "list": list, "s": String("s")}
+
+	d := convertData(data).(*Map)
+
+	dtags := d.Member("tags").(*Array)
+	dtags.Sort()
+	dtags.Push(String("c"))
+	d.Member("attrs").(*Map).Assign("k", Number(1))
+	d.Member("page").Member("tags").(*Array).Sort()
+	d.Member("list").(*Array).Items()[0].(*Array).Sort()
+	d.Member("list").(*Array).Items()[1].(*Map).Assign("l", Number(2))
+
+	assert.Equal(t, "a b c", dtags.String())
+	assert.Equal(t, []string{"b", "a"}, dtags.iface())
+	assert.Equal(t, "a b", d.Member("page").Member("tags").String())
+	assert.Equal(t, String("t"), d.Member("page").Member("title"))
+	assert.Equal(t, String("s"), d.Member("s"))
+
+	assert.Equal(t, "b a", tags.String())
+	assert.Equal(t, `{"a":1}`, attrs.String())
+	assert.Equal(t, []Object{tags, attrs}, list)
+	assert.Equal(t, "b a", page.Member("tags").String())
+
+	// inside a render objects keep their identity
+	assert.True(t, convert(tags) == Object(tags))
+}
+
+func TestMapCopyKeepsOrderAndLazyStruct(t *testing.T) {
+	m := funcmap["__op__map"].(func(...interface{}) Object)("z", 1, "a", 2).(*Map)
+	c := m.copy().(*Map)
+	c.Assign("k", Number(3))
+	assert.Equal(t, []string{"z", "a", "k"}, c.Keys())
+	assert.Equal(t, []string{"z", "a"}, m.Keys())
+
+	lazy := Convert(convertDataPage{Title: "t"}).(*Map)
+	assert.Equal(t, String("t"), lazy.copy().Member("title"))
+}
